@@ -171,7 +171,7 @@ func errorPropagated(fn *ssa.Function, after ssa.Instruction, r ssa.Value) (bool
 		}
 		if ld, ok := v.(*ssa.UnOp); ok && ld.Op == token.MUL {
 			if cell := ir.CellOf(ld); cell != nil {
-				if st := cellOfR[cell]; st != nil && st.Parent() == ld.Parent() && ir.Before(st, ld) {
+				if st := cellOfR[cell]; st != nil && st.Parent() == ld.Parent() && (ir.Before(st, ld) || ir.InstrReaches(st, ld)) {
 					clean := true
 					for _, b := range fn.Blocks {
 						for _, ins := range b.Instrs {
